@@ -42,6 +42,7 @@ type replica struct {
 type blockRecord struct {
 	begin  abci.RequestBeginBlock
 	txs    [][]byte
+	results []abci.ResponseDeliverTx // replica 0's answers, as the tx index will record them
 	preAnte []bool // tx was rejected before the ante handler completed (twin replicas skip it)
 	end    abci.RequestEndBlock
 	canon  []string // canonical response digests of the block: begin, each tx, end, commit
@@ -62,7 +63,7 @@ type Exec struct {
 	times    map[int64]int64
 	txBytes  map[[2]int][]byte
 	txSpecs  map[[2]int]TxSpec
-	txIndex  map[string]bool
+	txIndex  map[string]*abci.ResponseDeliverTx // what Tendermint's tx index answers: the latest result recorded under the hash
 	history  []*blockRecord
 	initReq  abci.RequestInitChain
 	last     *AppState
@@ -262,7 +263,7 @@ func Execute(tr *Trace) (res *core.Result, err error) {
 
 func executeOnce(tr *Trace) (res *core.Result, err error) {
 	e := &Exec{tr: tr, res: &core.Result{Stats: core.NewStats()}, log: sha256.New(), acctOf: map[string]int{}, times: map[int64]int64{},
-		txBytes: map[[2]int][]byte{}, txSpecs: map[[2]int]TxSpec{}, txIndex: map[string]bool{}, poolGifts: new(big.Int), sigSeen: map[string]bool{}, unknownBal: map[string]string{}, invPrev: map[string]string{}, committed: map[int64]map[string]map[string]string{}}
+		txBytes: map[[2]int][]byte{}, txSpecs: map[[2]int]TxSpec{}, txIndex: map[string]*abci.ResponseDeliverTx{}, poolGifts: new(big.Int), sigSeen: map[string]bool{}, unknownBal: map[string]string{}, invPrev: map[string]string{}, committed: map[int64]map[string]map[string]string{}}
 	defer func() {
 		rpcclient.SimTxLookup = nil
 		core.ClearMapSeed()
@@ -287,7 +288,7 @@ func executeOnce(tr *Trace) (res *core.Result, err error) {
 		e.m.Desync = "a block gas limit is configured (the model keeps no gas account)"
 	}
 	for i := range tr.Genesis.Balances {
-		e.m.Bal[acctKey(i)] = big.NewInt(tr.Genesis.EffectiveBalance(i))
+		e.m.Bal[acctKey(i)] = tr.Genesis.EffectiveBalance(i)
 	}
 	e.m.Supply = new(big.Int)
 	for _, b := range e.m.Bal {
@@ -296,8 +297,8 @@ func executeOnce(tr *Trace) (res *core.Result, err error) {
 	e.tm = NewTMSet()
 	e.simNode = NewSimNode()
 	rpcclient.SimTxLookup = func(hash []byte, prove bool) (*ctypes.ResultTx, error) {
-		if e.txIndex[hex.EncodeToString(hash)] {
-			return &ctypes.ResultTx{Hash: hash}, nil
+		if r, ok := e.txIndex[hex.EncodeToString(hash)]; ok {
+			return &ctypes.ResultTx{Hash: hash, TxResult: *r}, nil
 		}
 		return nil, errors.New("tx not found")
 	}
@@ -893,6 +894,7 @@ func (e *Exec) deliver(bi, ti int, rec *blockRecord, h int64) {
 		e.stopped = true
 		return
 	}
+	rec.results = append(rec.results, resp0)
 	d0 := digestDeliver(resp0)
 	if os.Getenv("VERIF_DEBUG") != "" {
 		fmt.Fprintf(os.Stderr, "DEBUG deliver h%d #%d %s acct=%d code=%d cs=%s log=%.300s\n", h, ti, spec.Kind, spec.Acct, resp0.Code, resp0.Codespace, resp0.Log)
@@ -1148,9 +1150,13 @@ func (e *Exec) commit(bi int, rec *blockRecord, h int64) {
 		return
 	}
 	// the tx index learns the block
-	for _, tx := range rec.txs {
+	for i, tx := range rec.txs {
 		hsh := sha256.Sum256(tx)
-		e.txIndex[hex.EncodeToString(hsh[:])] = true
+		res := abci.ResponseDeliverTx{}
+		if i < len(rec.results) {
+			res = rec.results[i]
+		}
+		e.txIndex[hex.EncodeToString(hsh[:])] = &res
 		e.m.TxIndex[hex.EncodeToString(hsh[:])] = true
 	}
 	e.res.Stats.C("blocks", 1)
